@@ -8,6 +8,9 @@ fn main() {
     let code = match id.as_str() {
         "C01" => dispatch::<props::c01::C01>(&args, &verif),
         "C02" => dispatch::<props::c02::C02>(&args, &verif),
+        "C06" => dispatch::<props::c06::C06>(&args, &verif),
+        "C07" => dispatch::<props::c07::C07>(&args, &verif),
+        "C08" => dispatch::<props::c08::C08>(&args, &verif),
         "C09" => dispatch::<props::c09::C09>(&args, &verif),
         _ => {
             eprintln!("unknown property id {:?}", id);
